@@ -83,6 +83,11 @@ Definition average_T (vals : list T) : option T :=
 Definition average_mf (vals : list mf) : option mf :=
   match seq_sum mf mf_add vals with Some s => Some (mf_divn s (length vals)) | None => None end.
 
+(* sample_list.py:212-237  average(op=None): `_prepare_average(None)` is the list of the samples
+   themselves (op = identity);  return utilities.allreduce_sum(res, self.comm) / self.n_samples.
+   This is what `kl.samples.average()` reports (posterior mean estimate). *)
+Definition sl_average (s : slist) : option mf := average_mf (sl_samples s).
+
 (* ---- the KL energy ------------------------------------------------------------------------- *)
 (* Hamiltonian: value and gradient on a full position, metric applied to a tangent.
    `hval cst x` is the value of the Hamiltonian SPECIALISED to the constant keys `cst`
